@@ -274,6 +274,8 @@ func propC05(c *Ctx) {
 	ruleNodeNonNil(c, rnn)
 	rdk := c.Rule("defined-symbol-kind", "an instruction is emitted with the index of a symbol obtained from DefineLocal only where the symbol is fresh or its Constant / Scope field has been tested (a literal constant has index -1)", 4)
 	ruleDefinedSymbolKind(c, rdk)
+	rcs := c.Rule("constlit-source", "every value stored into Symbol.constLit is a literal of a kind the emitter handles (result of constLitFromExpr, an in-place literal of such a kind, or the literal of a symbol known to be of scope ScopeConstLit): this is what makes the default-arm panics of constLiteral.emit / toExpr unreachable", 3)
+	ruleConstLitSource(c, rcs)
 	rcr := c.Rule("compile-rollback", "compiling an Eval fragment after an earlier fragment failed to compile never indexes a constant that was not stored: the session's module store is rolled back on the compile-error path", 1)
 	ruleCompileRollbackAuto(c, rcr)
 }
